@@ -1021,8 +1021,16 @@ def runs(run: Run, thorough: bool):
                 run.count("model", f"{shape[0]} features, {shape[1]} sources")
                 run.case(("run", mi, repr(design_json(d)), seed), nontrivial=(o != "ok") or len(rec.rvs) > 0)
                 if o == "budget":
-                    run.fail("run:visit-loop-does-not-terminate", "an accepted design does not run to completion (draw budget exhausted in the visit loop)",
-                             inp, observed=str(res))
+                    dm = (d.get("params") or {}).get("distance_visit_mean")
+                    if d["visit_type"] == "random" and dm is not None and dm[0] in ("int", "float") and dm[1] <= 0:
+                        # the listed family: a non-positive mean step with a positive spread is accepted (the rule refuses only when BOTH are
+                        # <= 0) and the visit loop is a random walk without drift towards the follow-up age
+                        run.fail("run:negative-distance-mean-does-not-terminate",
+                                 "distance_visit_mean <= 0 with distance_visit_std > 0 is accepted; the visit loop does not reach the follow-up age "
+                                 "within the draw budget", inp, observed=str(res))
+                    else:
+                        run.fail("run:visit-loop-does-not-terminate", "an accepted design does not run to completion (draw budget exhausted in the visit loop)",
+                                 inp, observed=str(res))
                     continue
                 out_cases.append(f"({{| dimension := {shape[0]}; source_dimension := {shape[1]} |}}, {design_coq(d)}, {CODE[o]}%nat)")
                 out_meta.append((inp, o, res))
